@@ -21,6 +21,8 @@ def volumetricDrivingForce(therm: GeneralThermodynamics, x, T, precipitate: Prec
     '''
     x, T = _process_xT_arrays(x, T, therm.numElements == 2)
     chemDGs, betaComp = therm.getDrivingForce(x, T, precPhase=precipitate.phase, removeCache=removeCache)
+    #getDrivingForce returns None if the equilibrium calculation failed, which becomes NaN here
+    chemDGs = np.array(chemDGs, dtype=np.float64)
     volDGs = chemDGs / precipitate.volume.Vm
     volDGs -= precipitate.strainEnergy.compute(precipitate.shapeFactor.description.normalRadii(aspectRatio))
 
